@@ -447,6 +447,9 @@ def D1(ctx):
         g_term = unreachable_if(body, b, assume_calls({"std::iter::Iterator::all": True}))
         r_term = not unreachable_if(body, b, assume_calls({"std::iter::Iterator::all": False, "rt::thread::Set::is_active": False}))
         after = IN.get(b) is not TOP and "set_active" in (IN.get(b) or ())
+        # inevitable: with no active thread and some thread not terminated, schedule() cannot return normally
+        dead, _ = PEval(body, assume_calls({"std::iter::Iterator::all": False, "rt::thread::Set::is_active": False})).run()
+        r_term = r_term and not any(body.term(x)["k"] == "return" for x in dead)
         if g_active and r_inactive and g_term and r_term and after:
             ctx.ok("D1", k, "deadlock panic iff no thread is active and not all threads terminated, after set_active(next)",
                    [site_str(prog, k, b)])
